@@ -58,9 +58,25 @@ def replay_pipeline(w):
     uid = w["uid"]
     units = pipeline.make_units(w["profile"], w["seed"], w["tier"], uid // 8, w.get("opts") or {})
     u = units[uid % 8]
-    if w.get("grammar_text") and u["text"] != w["grammar_text"]:
-        print("note: the generator no longer reproduces this grammar text byte for byte (machinery changed); replaying the regenerated unit")
     d = tempfile.mkdtemp(prefix="vfr_", dir=build.WORK)
+    if w.get("grammar_text") and u["text"] != w["grammar_text"]:
+        # the generator has changed since the witness was written: take the recorded text, read by the real front end
+        print("note: the generator no longer reproduces this grammar text (machinery changed); replaying the recorded text")
+        import gfromast
+        tp = os.path.join(d, "w.ebnf")
+        with open(tp, "w", encoding="utf-8") as f:
+            f.write(w["grammar_text"])
+        r = build.run_cgdrv("ast", [("s", tp, os.path.join(d, "w.ast"))], d, nproc=1)
+        if r["s"][0] != "ok":
+            print("the recorded grammar text is not accepted by the front end now:", r["s"])
+            shutil.rmtree(d, ignore_errors=True)
+            return 1
+        with open(os.path.join(d, "w.ast"), encoding="utf-8") as f:
+            g2 = gfromast.grammar(rdebug.parse(f.read()))
+        g2.user_ctx = u["grammar"].user_ctx if "Ctx" not in str(w.get("opts")) else u["grammar"].user_ctx
+        g2.user_ctx = any(x.kind == "extern" and x.func[-1].endswith("c") for x in g2.rules) or any(
+            x.kind == "rule" and any(c[-1].endswith("c") and c[-1][:-1] in ("chk0", "chk1", "chk2", "chk3") for c in x.checks()) for x in g2.rules)
+        u = {"grammar": g2, "text": w["grammar_text"]}
     try:
         g = u["grammar"]
         gp = os.path.join(d, "g.ebnf")
